@@ -907,6 +907,8 @@ class Interp:
             r = mm(self, b, "__binop__", [name, a, True], {}, ctx)
             if r is not NotImplemented:
                 return r
+        if name in ("BitOr", "BitAnd") and (isinstance(a, bool) or is_symbool(a)) and (isinstance(b, bool) or is_symbool(b)):
+            return simp(z3.Or(zb(a), zb(b)) if name == "BitOr" else z3.And(zb(a), zb(b)))
         if name == "Add":
             return self.add(a, b, ctx)
         if name == "Mult" and (isinstance(a, (str, bytes, Seq)) or isinstance(b, (str, bytes, Seq))):
